@@ -1023,6 +1023,10 @@ func (c *compiler) evalForExpression(node *ast.ForExpression) (interface{}, erro
 
 	riter := reflect.ValueOf(iter)
 	if riter.Kind() == reflect.Ptr {
+		if riter.IsNil() {
+			// a nil pointer, to a collection or to an Iterator, is a nil iterable
+			return nil, nil
+		}
 		riter = riter.Elem()
 	}
 
